@@ -20,6 +20,7 @@ import sys
 import time
 import traceback
 
+sys.set_int_max_str_digits(0)
 VERIF = os.path.dirname(os.path.dirname(os.path.abspath(__file__)))
 OUT = os.path.join(VERIF, "out")
 EVID = os.path.join(VERIF, "evidence")
@@ -236,6 +237,8 @@ def main(argv=None):
     ap.add_argument("--only", default=None, help="regex on harness names (debugging)")
     ap.add_argument("--jobs", type=int, default=int(os.environ.get("VERIF_JOBS", "16")))
     ap.add_argument("--no-evidence", action="store_true")
+    ap.add_argument("--verbose", "-v", action="store_true")
+    ap.add_argument("--cfg", default=None, help="regex on the json of the config (debugging)")
     args = ap.parse_args(argv)
     pid = args.pid
     seed = int(os.environ.get("VERIF_SEED", "0") or 0)
@@ -264,6 +267,8 @@ def main(argv=None):
         if args.only and not re.search(args.only, h.name):
             continue
         for cfg in h.configs_for(args.tier):
+            if args.cfg and not re.search(args.cfg, json.dumps(cfg)):
+                continue
             jobs.append((pid, h.name, cfg, args.tier))
     rnd = random.Random(seed)
     order = list(range(len(jobs)))
@@ -279,6 +284,9 @@ def main(argv=None):
         r.setdefault("harness", j[1])
         r.setdefault("config", j[2])
 
+    if args.verbose:
+        for r in sorted(results, key=lambda r: -r.get("wall_s", 0)):
+            print("  ", r["harness"], json.dumps(r["config"]), "status", r.get("status"), "paths", r.get("paths"), "oblig", r.get("obligations"), "q", r.get("queries"), "solver_s", r.get("solver_s"), "wall", r.get("wall_s"), "exh", r.get("exhaustive"))
     # ---- replay phase --------------------------------------------------------
     items = []
     max_path_replays = 40 if args.tier == "quick" else 400
@@ -398,7 +406,7 @@ def main(argv=None):
 
     tot = lambda k: sum(r.get(k, 0) for r in results if isinstance(r.get(k, 0), (int, float)))
     wall = time.time() - t_start
-    if not args.no_evidence and not args.only:
+    if not args.no_evidence and not args.only and not args.cfg:
         os.makedirs(EVID, exist_ok=True)
         samples = []
         for r in results:
